@@ -9,6 +9,7 @@
 (*   tag     a variant tag overwritten with a value no variant writes C15  *)
 (*   flip / revcookie / minor   header corruption                    C10   *)
 (*   rfail   the reader fails at a read_exact (full copy)            C14   *)
+(*   payload any single byte after the header replaced      (no property)  *)
 (* Terminal states carry the mutation and the predicted outcome of both    *)
 (* modes; the harness applies the same mutation to the real stream.        *)
 (***************************************************************************)
@@ -39,6 +40,17 @@ EnumTagWords(n) ==
    <<255, 255, 255, 255, 255, 255, 255, 255>>}       \* 2^64 - 1
 
 TagRows == {i \in 1..Len(rows) : rows[i].nv > 0}
+\* payload damage (beyond the listed properties): any single byte after the header replaced by a boundary value.
+\* Bytes of unknown content (padding inside a zero-copy value) are left alone; the two middle bytes of a length
+\* word are left alone too (they make sequences of up to 2^24 items: the same behaviour as the low byte's 255,
+\* at a cost the model checker cannot pay)
+PayloadStart == HeaderLen(case.nameLen)
+ByteVals(b) == {0, 1, 2, 128, 255, (b + 1) % 256} \ {b}
+LenMiddle == UNION {{rows[i].off + 1, rows[i].off + 2} :
+                     i \in {j \in 1..Len(rows) : rows[j].size = UsizeBytes /\ rows[j].field[Len(rows[j].field)] = "len"}}
+PayloadMuts ==
+  UNION {{M("byte", off, 1, <<x>>) : x \in ByteVals(out[off + 1])}
+         : off \in {o \in PayloadStart..(Len(out) - 1) : out[o + 1] <= 255 /\ o \notin LenMiddle}}
 MutsOf(kind) ==
   CASE kind = "trunc" -> {M("trunc", k, 0, <<>>) : k \in 0..(Len(out) - 1)}
     [] kind = "place" -> {M("place", b, 0, <<>>) : b \in Bases}
@@ -55,11 +67,12 @@ MutsOf(kind) ==
          \cup {M("revcookie", 0, 0, <<>>)}
          \cup {M("minor", 10, 2, NE(x, 2)) : x \in {0, 1, 2, 3, 255, 256, 257, 32767, 32768, 65535}}
     [] kind = "rfail" -> {NoMut}
+    [] kind = "payload" -> PayloadMuts
 
 Splice(bs, off, new) == SubSeq(bs, 1, off) \o new \o SubSeq(bs, off + Len(new) + 1, Len(bs))
 Apply(m, bs) ==
   CASE m.k = "trunc" -> SubSeq(bs, 1, m.a)
-    [] m.k = "tag" -> Splice(bs, m.a, m.c)
+    [] m.k \in {"tag", "byte"} -> Splice(bs, m.a, m.c)
     [] m.k = "minor" -> Splice(bs, m.a, m.c)
     [] m.k = "flip" -> [bs EXCEPT ![m.a + 1] = FlipBit(bs[m.a + 1], m.b)]
     [] m.k = "flip0" -> LET low == Splice(bs, 10, NE(0, 2)) IN [low EXCEPT ![m.a + 1] = FlipBit(low[m.a + 1], m.b)]
@@ -155,6 +168,17 @@ HeaderRule ==
                 [] mut.a \in 13..20 -> both("WrongTypeHash") /\ rdetail = SubSeq(hb, 14, 21)
                 [] mut.a \in 21..28 -> both("WrongAlignHash") /\ rdetail = SubSeq(hb, 22, 29)
 NeverPanicOnHeader == (mut.k \in {"flip", "flip0", "revcookie", "minor"}) => (rstatus # "panic" /\ fullRes.st # "panic")
+
+\* payload damage: both readers stop with one of the outcomes the code has, without touching a byte outside
+\* the input; a value is only returned with the whole... (no: a shortened length leaves bytes unread) - what holds
+\* is weaker: full copy and ε-copy agree on acceptance unless the difference is an alignment / bounds matter
+PayloadOutcomes ==
+  (Done /\ mut.k = "byte") =>
+     /\ FullSt \in {"ok", "ReadError", "InvalidTag", "panic", "ub", "hang", "ok-huge"}
+     /\ EpsSt \in {"ok", "ReadError", "InvalidTag", "panic", "AlignmentError", "ub", "hang", "ok-huge"}
+\* when both accept, they return the same value
+PayloadAgree ==
+  (Done /\ mut.k = "byte" /\ FullSt = "ok" /\ EpsSt = "ok") => fullRes.val = vals
 
 \* C14: a failing reader yields a read error, never a value, never a panic
 ReaderFailRule ==
